@@ -35,7 +35,7 @@ COMPONENTS = {
     "real": ["_gradient.py (least squares, merged estimation)", "function estimators", "samplers (built-in)", "EnsembleEvaluator", "VariableScaler"],
     "stub": ["affine world + SimEvaluator", "sim/inject sampler", "sim/scripted optimizer"],
 }
-PROBES = ["gradients_compared", "merged_compared", "merged_identical", "merged_shared", "ill_conditioned_trivial", "stddev_compared",
+PROBES = ["gradient_at_near_duplicate_point", "gradients_compared", "merged_compared", "merged_identical", "merged_shared", "ill_conditioned_trivial", "stddev_compared",
           "fixed_entries_checked", "cached_function_path", "weighted_gradient_compared", "with_failed_perturbation",
           "builtin_sampler", "filtered_gradient"]
 
@@ -65,6 +65,23 @@ def generate(seed: int, index: int, tier: str) -> dict:
         cfg["gradient"]["number_of_perturbations"] = max(cfg["gradient"]["number_of_perturbations"], nv + rng.randint(0, 2))
         if "perturbation_min_success" in cfg["gradient"]:
             cfg["gradient"]["perturbation_min_success"] = rng.randint(1, cfg["gradient"]["number_of_perturbations"])
+    # a gradient request at a point a hair away from the point of the preceding function request
+    # (closer than numpy's default allclose tolerances): the function values cached for x must not
+    # serve as base values for the gradient at x'
+    opts = cfg["optimizer"]["options"]
+    script = opts["script"]
+    if rng.random() < 0.35:
+        new = []
+        for e in script:
+            new.append(e)
+            if e["op"] == "f" and not e.get("batch") and e["pts"][0] >= 0 and rng.random() < 0.7:
+                base = opts["points"][e["pts"][0]]
+                shift = rng.choice([5e-9, 2e-6, -3e-6])
+                near = [v + (shift if abs(shift) < 1e-8 else shift * max(abs(v), 0.1)) for v in base]
+                opts["points"].append(near)
+                new.append({"op": "g", "pts": [len(opts["points"]) - 1]})
+        opts["script"] = new
+        scn["near_points"] = True
     if index % 5 in (1, 3):
         gen.add_nan_faults(rng, scn, rate=1.0, max_faults=3)
         scn["stratum"] = "nan-faults"
@@ -92,6 +109,8 @@ def execute(scn: dict) -> dict:
         mask = model.mask_of(cfg)
         if ln.call.kind == "g":
             probe("cached_function_path")
+        if scn.get("near_points"):
+            probe("gradient_at_near_duplicate_point")
         if cfg["samplers"][0]["method"] != "sim/inject":
             probe("builtin_sampler")
         gr = ln.opt.gradients
